@@ -76,6 +76,11 @@ def lemma_axioms() -> list[z3.BoolRef]:
     # P1: prod split at the lower end: a<b => prod(s,a,b) = s[a]*prod(s,a+1,b)
     out.append(z3.ForAll([s, a, b], z3.Implies(a < b, f_prod(s, a, b) == z3.Select(s, a) * f_prod(s, a + 1, b)),
                          patterns=[f_prod(s, a, b)]))
+    # L9: congruence: arrays that agree on [0,j) have the same count there
+    m2 = z3.Const("m2", BoolArr)
+    out.append(z3.ForAll([m, m2, j], z3.Implies(
+        z3.And(j >= 0, z3.ForAll([i], z3.Implies(z3.And(0 <= i, i < j), z3.Select(m, i) == z3.Select(m2, i)))),
+        f_cnt(m, j) == f_cnt(m2, j)), patterns=[z3.MultiPattern(f_cnt(m, j), f_cnt(m2, j))]))
     return out
 
 
